@@ -1609,3 +1609,9 @@ _add_family(globals(), _io, 'initorder', _io.oracle, share=0.015)
 # glob children that come with Engine(store=, initial_state=) get their declared defaults (F46)
 from harness import storeinit as _si                    # noqa: E402
 _add_family(globals(), _si, 'storeinit', _si.oracle, share=0.01)
+
+
+# compatible declarations of one variable (an updater named by the writer only) in every listing order
+from harness import declorder as _do                    # noqa: E402
+from harness.mixins import add_family as _add_family    # noqa: E402,F811
+_add_family(globals(), _do, 'declorder', _do.oracle, share=0.04)
